@@ -22,8 +22,9 @@ RULE = ("case = random history of guarded create/switch/push/pop/delete/scan_byt
         "scan_string/scan_buffer/flush operations from actions and between yylex calls over "
         "3-6 file sources and 8 strings, nesting beyond the initial stack allocation; yyrestart(file) "
         "while the scanner has no buffer (as the program's first call, and after deleting the "
-        "current buffer); "
+        "current buffer); yypush_buffer_state() right after deleting the current buffer; "
         "operations are executed only when valid by rules shared with the model")
 REQUIRED = {"switch": 20, "bpop": 5, "delete": 3, "scan_bytes": 3, "scan_string": 3,
             "scan_buffer_ok": 1, "scan_buffer_null": 1, "flush": 3, "bpush_depth_1": 1,
-            "switch_back_midline": 1, "restart_without_buffer": 10}
+            "switch_back_midline": 1, "restart_without_buffer": 10,
+            "push_without_current_buffer": 3}
